@@ -241,6 +241,24 @@ doc = {doc}
 {ASSERT}
 """
         out.append(mk_case(f"c01.twins.{cid}", [("u1", "Union[bool, None, str]")], body, pre=[f"BU({L}, u1)"]))
+    for cid, tsrc in [("dtype_int", "leaf('value', 'dtype', 'equal_to', int)"), ("is_instance_bool", "leaf('value', None, 'is_instance', bool)"),
+                      ("gt", "leaf('value', None, 'greater_than', a)"), ("in", "leaf('value', None, 'in_', [a, True, None])"),
+                      ("length", "leaf('value', 'length', 'less_than', a)"), ("keys", "leaf('value', None, 'keys_contain', 1)")]:
+        body = f"""
+T = {tsrc}
+cond = build_cond(T)
+docs = ([1, 2, u1, 'ab'], [True, F2, u1, 'ab'], {{'x': F1, 'y': [1], 'z': {{1: 0}}}}, [1, 2, u1, 'ab'], {{'x': True, 'y': [True], 'z': {{True: 0}}}})
+ok = True
+for doc in docs:
+    fd = cond.filter(doc)
+    exp = ref_tree(T, doc)
+    ok = ok and same('result on this document', fd.result, exp) and same('failure_indices', fd.failure_indices, [i for i in range(len(exp)) if not exp[i]])
+    ok = ok and same('test() of the first item', cond.test(ref_items(doc)[0][1]), exp[0])
+return ok
+"""
+        # float twins only where no symbolic int argument meets them (a float against a symbolic int stalls z3)
+        body = body.replace("F2", "2" if cid in ("gt", "in", "length") else "2.0").replace("F1", "1" if cid in ("gt", "in", "length") else "1.0")
+        out.append(mk_case(f"c01.reuse.{cid}", [("a", "int"), ("u1", "Union[bool, None, str]")], body, pre=[f"I64(a) and BU({L}, u1)"]))
     # aliases build the same object and filter alike
     for kind, pre in terms.CLASSES:
         for al, full in terms.ALIASES.items():
